@@ -126,6 +126,11 @@ def draw_kind(F, t):
 
 def _dist_name(p):
     # "<normal::StandardNormal as rand::distr::Distribution<f64>>::sample" -> "StandardNormal"
+    # "rand::distr::float::<impl rand::distr::Distribution<f64> for rand::distr::StandardUniform>::sample" -> "StandardUniform"
+    import re as _re
+    m_ = _re.search(r" for ([\w:]+)", p)
+    if m_:
+        return m_.group(1).rsplit("::", 1)[-1]
     s = p
     if s.startswith("<"):
         s = s[1:].split(" as ")[0]
@@ -291,6 +296,8 @@ def summarize(F, inst, max_paths=400):
         else:
             outs = [(s_, None) for s_ in successors(t)]
         live = [(nxt, lit) for nxt, lit in outs if nxt not in fi.diverging]
+        if len(live) == 1 and len(outs) > 1 and live[0][1] is not None and live[0][1][0] != "variant":
+            live = [(live[0][0], None)]          # an assertion (`debug_assert!`, overflow check): the other edge only panics
         # a branch that could not be turned into a literal (and is not a panic edge): the paths through it are not fully described
         op2 = opaque + (1 if len(live) > 1 and all(lit is None for _, lit in live) else 0)
         for nxt, lit in live:
